@@ -41,6 +41,18 @@ pub struct NodeState {
 }
 
 impl CoreVelocityControl {
+    // the core constructors, with the contracts proved in unit velocity ([C12.new.shape], [C12.new.empty]): a NEW control
+    // starts at second 0 with empty buckets - declared so that a conversion that goes through them is decided, not unknown
+    #[verifier::external_body]
+    pub fn new_with_intervals(limit_msat: u64, bucket_interval: u32, num_buckets: usize) -> (r: Self)
+        ensures r.start_sec == 0, r.limit == limit_msat, r.bucket_interval == bucket_interval, r.buckets@.len() == num_buckets,
+            forall|i: int| 0 <= i < num_buckets ==> r.buckets@[i] == 0
+    { unimplemented!() }
+    #[verifier::external_body]
+    pub fn new_unlimited(bucket_interval: u32, num_buckets: usize) -> (r: Self)
+        ensures r.start_sec == 0, r.limit == u64::MAX, r.bucket_interval == bucket_interval, r.buckets@.len() == num_buckets,
+            forall|i: int| 0 <= i < num_buckets ==> r.buckets@[i] == 0
+    { unimplemented!() }
 // `impl From<VelocityControl> for CoreVelocityControl` / the inverse: field by field
 //@fn vls-persist/src/model.rs :: impl From<VelocityControl> for CoreVelocityControl :: from props=C12
     ensures r.start_sec == v.start_sec && r.bucket_interval == v.bucket_interval && r.buckets == v.buckets && r.limit == v.limit,   //[C12.model.velocity-state-read-back-fieldwise]
